@@ -52,6 +52,14 @@ def run(tier, seed, replay):
             for b in bc:
                 f.write(json.dumps({"k": "recomp", "src_tc": "none", "target": "keep", "force": 0, "fmt": "pmtiles", "tiles": b["tiles"],
                                     "classes": b["classes"], "directed": "pmtiles_root_limit"}) + "\n")
+    if not replay:
+        # directed: ONE BIG tile (17 MiB of compressible content, next to a small one) for every source codec x target: whatever
+        # a recompression does to a tile, it does to all of it
+        with open(cases, "a") as f:
+            for src in ("none", "gzip", "brotli"):
+                for target in ("keep", "none", "gzip", "brotli"):
+                    f.write(json.dumps({"k": "recomp", "src_tc": src, "target": target, "force": 0, "fmt": "tar", "tiles": [[5, 3, 3, 1], [5, 4, 3, 2]],
+                                        "classes": {"1": [17830000, 1], "2": [300, 0]}, "directed": "big_payload"}) + "\n")
     case_list = C.read_ndjson(cases)
     t = os.path.join(d, "trace.ndjson")
     s = C.run_harness(hb, ["replay", "CONVERT", cases, t, C.scratch_dir("C04")], timeout=6000)
